@@ -53,8 +53,8 @@ func extractMetadata(r binary.Reader) (md *meta.Data, err error) {
 	}
 
 	pngSig := [8]byte{}
-	bytesRead, err := r.Read(pngSig[:])
-	if err != nil {
+	bytesRead, err := io.ReadFull(r, pngSig[:])
+	if err != nil && err != io.ErrUnexpectedEOF {
 		return nil, err
 	}
 	if bytesRead != len(pngSig) {
@@ -144,8 +144,8 @@ parseChunks:
 			}
 
 			chunkData := make([]byte, ch.Length-offset)
-			bytesRead, err := r.Read(chunkData)
-			if err != nil {
+			bytesRead, err := io.ReadFull(r, chunkData)
+			if err != nil && err != io.ErrUnexpectedEOF {
 				return nil, err
 			}
 			if bytesRead != len(chunkData) {
